@@ -241,3 +241,6 @@ LEVEL_NOTE = ("Trusted: Lean kernel; the hand-written model's faithfulness is sa
               "Read through a file, Export token stream, Unmarshal back in Go); encoding/json's text layer; non-ASCII input is outside the model.")
 HARNESS_BIN = "run-io"
 EXTRACT_BINS = ["extract-io"]
+
+# the same requests executed 8 at a time in concurrent goroutines (check: PARALLEL / harness: VERIF_PAR)
+PARALLEL = {"quick": {"par": 8, "max_cases": 4000}, "thorough": {"par": 8, "max_cases": 40000, "race": True}}
